@@ -49,7 +49,7 @@ Definition hy_sound (rq : hyrequest) (o : hyout) (r : list (Z * Z)) : bool :=
   (match ho_cands o with Some c => subsetz (map fst r) c | None => true end) &&
   (match hq_vec rq, hq_txt rq with
    | [], [] => true
-   | _, _ => subsetz (map fst r) (ho_vecids o ++ ho_txtids o)
+   | _, _ => negb (ho_modal_known o) || subsetz (map fst r) (ho_vecids o ++ ho_txtids o)
    end).
 
 Record yh := { yh_model : hystate; yh_i : Z; yh_weak : Z }.
